@@ -444,6 +444,8 @@ struct Ctx {
         const bool hung = w[k].hung != 0;
         const bool in_generator = w[k].in_case == 2;
         w[k].hung = 0;
+        // SIGKILL that the watchdog did not send comes from outside (the kernel's out-of-memory killer, an operator): not the library
+        if (WIFSIGNALED(st) && WTERMSIG(st) == SIGKILL && !hung) machinery_error("a worker was killed from outside (SIGKILL, probably out of memory) in %s while at '%s'", phase, w[k].cur);
         if (!w[k].in_case) {
           // between two cases: the allocator noticed a corrupted heap (abort in free / malloc), or freed memory was still in use - the
           // harness itself does not crash there on the unchanged tree, so a call of the library before this point wrote outside its
